@@ -17,7 +17,7 @@ func init() {
 		ID:       "C14",
 		Category: "fault_enumeration",
 		Rule: "operation sequences S over {Write(piece), Flush, Close}: length <=2 over pieces {small, 10 KB, fill, >64 KiB} (quick); thorough: length <=3 over {small, 10 KB, fill} and length <=2 over those plus >64 KiB and 200 KB incompressible; N(S) = destination calls of the fault-free run; " +
-			"header variants (zlib with dictionary, gzip with extra/name/comment, flate with dictionary) over {small, 10 KB}; for EVERY k in 1..N(S) the k-th destination call fails with a fresh error value (for one-operation sequences and k <= 2 also with io.EOF, io.ErrShortWrite, io.ErrClosedPipe), accepting 0 or len/2 bytes; then every continuation of length <=2 (<=1 when k>2 in quick, k>6 in thorough) over {W(small), W(fill), Flush, Close}; " +
+			"header variants (zlib with dictionary, gzip with extra/name/comment, flate with dictionary) over {small, 10 KB}; for EVERY k in 1..N(S) the k-th destination call fails with a fresh error value (for one-operation sequences and k <= 2 also with io.EOF, io.ErrShortWrite, io.ErrClosedPipe, and the 'closed writer' errors of a fastgo / compress/flate Writer further down the pipeline, plain and wrapped), accepting 0 or len/2 bytes; then every continuation of length <=2 (<=1 when k>2 in quick, k>6 in thorough) over {W(small), W(fill), Flush, Close}; " +
 			"oracle: the operation in progress returns exactly that error, every later call returns a non-nil error and makes no destination call, no panic, guard zones intact, Reset revives the Writer; " +
 			"non-trivial = the injected failure was reached (k <= N(S)); distinct = distinct (setting, S, k, short-count, continuation)",
 		Assumptions: []string{"the destination reports failure through its error result (a short count with a nil error is outside the statement)"},
@@ -146,7 +146,15 @@ func c14Harness(cfg *Cfg) func(x *mc.Exec) {
 		E := env.NewErr(fmt.Sprintf("k=%d", fk))
 		evName := "fresh"
 		if fk <= 2 && len(S) <= 1 {
-			switch x.Choose(4, "error-value") {
+			switch x.Choose(7, "error-value") {
+			case 4:
+				// the destination is itself a closed fastgo Writer further down the pipeline: its error is the
+				// library's own "closed writer" value
+				E, evName = fastClosedErr(), "fastgo-closed-writer"
+			case 5:
+				E, evName = fmt.Errorf("stage 2: %w", fastClosedErr()), "wraps-fastgo-closed-writer"
+			case 6:
+				E, evName = stdClosedErr(), "compress/flate-closed-writer"
 			case 1:
 				E, evName = io.EOF, "io.EOF"
 			case 2:
@@ -262,6 +270,31 @@ func c14Harness(cfg *Cfg) func(x *mc.Exec) {
 		}
 		x.Outcome(fmt.Sprintf("%s S=%v k=%d/%d failedInOp=%d", k, S, fk, N, failedAt))
 	}
+}
+
+// fastClosedErr is the error a closed fastgo flate Writer returns from Write.
+func fastClosedErr() error {
+	w, err := WK{Kind: "flate", Level: 1}.Fast(io.Discard)
+	if err != nil {
+		panic(mc.HarnessError{Msg: "fastClosedErr: " + err.Error()})
+	}
+	w.Close()
+	_, e := w.Write([]byte{1})
+	if e == nil {
+		return env.NewErr("closed-writer-accepted-a-write")
+	}
+	return e
+}
+
+// stdClosedErr is the same for compress/flate.
+func stdClosedErr() error {
+	w, _ := WK{Kind: "flate", Level: 1}.Std(io.Discard)
+	w.Close()
+	_, e := w.Write([]byte{1})
+	if e == nil {
+		panic(mc.HarnessError{Msg: "compress/flate accepted a Write after Close"})
+	}
+	return e
 }
 
 func errClass2(err, want error) string {
